@@ -7,6 +7,7 @@ CONSTANTS
   IntVals2 <- TinyIntVals
   ArgKinds <- AllArgKinds
   Kinds = {"method", "static"}
+  NameModes <- SameNames
   ConstMethods = FALSE
   Fixed <- NoFix
 INVARIANT RefinesAndTies
